@@ -4,7 +4,8 @@
 can succeed by object identity.  "pair" cases: two separately built objects of one of the eight hashable classes,
 chosen by field-choice vectors over the small domains in FIELDS, each brought about by a provenance (fresh constructor;
 donor hashed, then model_copy(update=...); donor hashed, then attribute assignment; hashed, then model_copy(deep=True);
-hashed, then model_validate(model_dump(exclude_unset=True))).
+hashed, then model_validate(model_dump(exclude_unset=True)); constructor with every optional field passed explicitly with
+its default).  In "enc" cases the vocabulary tags and the query tags may be written differently (vprov / qprov).
 """
 import datetime
 import uuid as _uuid
@@ -51,13 +52,39 @@ _VALUES = ["a", "b", "c"]
 _UTAG = [(1, 1), (1, 2), (2, 1), (3, 1), (4, 1), (4, 2), (2, 2), (3, 2), (1, 3), (2, 3), (3, 3), (4, 3)]
 
 
+_WRITE = {"explicit": False}      # how objects are written down while _written(True) is active
+
+
+class _written:
+    """Within this block constructors receive every optional field explicitly, with its default value."""
+    def __init__(self, explicit):
+        self.explicit = explicit
+
+    def __enter__(self):
+        self.old, _WRITE["explicit"] = _WRITE["explicit"], self.explicit
+
+    def __exit__(self, *a):
+        _WRITE["explicit"] = self.old
+
+
+def _make(model, **kw):
+    """model(**kw); in explicit mode also pass every optional field that kw leaves out, with its declared default."""
+    if _WRITE["explicit"]:
+        for name, f in model.model_fields.items():
+            key = f.alias or name                      # Term.type_of_term / term_range are written "type" / "range"
+            if name not in kw and key not in kw and not f.is_required():
+                kw[key] = f.get_default(call_default_factory=True)
+    return model(**kw)
+
+
 def _term(t):
-    return data.Term(**_TERMS[t - 1])
+    return _make(data.Term, **_TERMS[t - 1])
 
 
-def _tag(u):
+def _tag(u, prov="fresh"):
     t, v = _UTAG[u - 1]
-    return data.Tag(term=_term(t), value=_VALUES[v - 1])
+    with _written(prov == "explicit_defaults"):
+        return data.Tag(term=_term(t), value=_VALUES[v - 1])
 
 
 def _which(tag):
@@ -75,25 +102,26 @@ def _opt(x):
     return [] if x is None else [int(x)]
 
 
-def _three(encoder, tags, scs):
-    cls = _opt(classification_encoding([_tag(u) for u in tags], encoder))
-    multi = [int(x) for x in multilabel_encoding([_tag(u) for u in tags], encoder)]
+def _three(encoder, tags, scs, q):
+    cls = _opt(classification_encoding([_tag(u, q) for u in tags], encoder))
+    multi = [int(x) for x in multilabel_encoding([_tag(u, q) for u in tags], encoder)]
     pred = []
     for sc in scs:
-        ptags = [data.PredictedTag(tag=_tag(u), score=s / 4) for u, s in zip(tags, sc)]
+        ptags = [data.PredictedTag(tag=_tag(u, q), score=s / 4) for u, s in zip(tags, sc)]
         pred.append([ticks(float(x), 0.25) for x in prediction_encoding(ptags, encoder)])
     return cls, multi, pred
 
 
 def _enc(case):
     vocab, tags, scs = case["vocab"], case["tags"], case["scs"]
-    encoder = create_tag_encoder([_tag(u) for u in vocab])
-    enc = [_opt(encoder.encode(_tag(u))) for u in range(1, len(_UTAG) + 1)]
+    vp, q = case.get("vprov", "fresh"), case.get("qprov", "fresh")      # how vocabulary / query tags are written
+    encoder = create_tag_encoder([_tag(u, vp) for u in vocab])
+    enc = [_opt(encoder.encode(_tag(u, q))) for u in range(1, len(_UTAG) + 1)]
     dec = [_which(encoder.decode(k)) for k in range(len(vocab))]
     encdec = [_opt(encoder.encode(encoder.decode(k))) for k in range(len(vocab))]
-    cls, multi, pred = _three(encoder, tags, scs)
+    cls, multi, pred = _three(encoder, tags, scs, q)
     # the same list without its out-of-vocabulary members: given by the case, checked by the specification
-    f_cls, f_multi, f_pred = _three(encoder, case["ftags"], case["fscs"])
+    f_cls, f_multi, f_pred = _three(encoder, case["ftags"], case["fscs"], q)
     return {"num": int(encoder.num_classes), "enc": enc, "dec": dec, "encdec": encdec,
             "cls": cls, "multi": multi, "pred": pred, "f_cls": f_cls, "f_multi": f_multi, "f_pred": f_pred}
 
@@ -151,7 +179,7 @@ def _build(cls, x):
         v = mk(k)
         if not (cls == 1 and name == "extra_note" and v is None):      # Term's extra attribute: present or not
             kw[name] = v
-    return model(**kw)
+    return _make(model, **kw)
 
 
 def _realise(cls, x, prov):
@@ -160,6 +188,9 @@ def _realise(cls, x, prov):
     mode, f = prov["mode"], prov["f"]
     if mode == "fresh":
         return _build(cls, x)
+    if mode == "explicit_defaults":       # the object and every Term inside it: optional fields passed with their defaults
+        with _written(True):
+            return _build(cls, x)
     model, fields, _ = FIELDS[cls]
     if mode in ("deep_copy", "revalidate"):
         src = _build(cls, x)
@@ -212,7 +243,8 @@ def random_cases(rng, tier):
             tags[rng.randrange(lt)] = tags[0]
         scs = [[rng.randrange(0, 5) for _ in tags] for _ in range(2)]
         keep = [j for j, u in enumerate(tags) if u in vocab]     # re-derived and checked by Encoding!Filtered in TLC
-        yield {"kind": "enc", "vocab": vocab, "tags": tags, "scs": scs,
+        vp, qp = rng.choice([("fresh", "fresh"), ("fresh", "explicit_defaults"), ("explicit_defaults", "fresh")])
+        yield {"kind": "enc", "vocab": vocab, "tags": tags, "scs": scs, "vprov": vp, "qprov": qp,
                "ftags": [tags[j] for j in keep], "fscs": [[sc[j] for j in keep] for sc in scs]}
 
 
